@@ -7,7 +7,7 @@ CONFIG = {
                 "conversions, optional TruncatedAt, DeletedAt stamps, privilege maps, recomputed adminUserExists; any two replicas satisfying RaftLog converge (canonical "
                 "metadata), snapshot at any index + replay of the suffix = the whole log, a client cache = the leader's value; a snapshot or published value taken at any point "
                 "of any schedule still reads, after any further commands, the value at that point (heap model with aliasing for Clone / Snapshot / in-place Term+Index stamps and "
-                "node-list writes); for EVERY byte string, validateCommand accepting it implies storeFSM.Apply does not panic on it (type and extension tables re-read "
+                "node-list writes; every other slice/map a *Data reaches is copied by Clone - all 12 fields re-read from the source - and a copied slice is proved unaffected by append/remove/assign through the copy); for EVERY byte string, validateCommand accepting it implies storeFSM.Apply does not panic on it (type and extension tables re-read "
                 "from the source each run). The same model and an executable spec are evaluated in Coq against the real storeFSM (Snapshot, further commands, Persist, Restore "
                 "into a fresh store, replay) and the real validateCommand/Apply on designed + generated inputs.",
         "note": "Trusts Coq kernel, genconsts translator, the harness and its canonical dump; RaftLog (raft's guarantees) is an assumption, validated only by the thorough-tier soak; "
@@ -19,18 +19,19 @@ CONFIG = {
     "harness": "h_c07",
     "level": "proof",
     "coq_deps": ["C06"],
-    "n": {"quick": 420, "thorough": 2500},
+    "n": {"quick": 360, "thorough": 2500},
     "shard": 25,
     "search_rounds": 1,
     "search_boost": 1,
     "bytes_keys": ["b"],
-    "extra_proof_files": ["ProofsMarshal", "ProofsWf", "ProofsHeap"],
+    "extra_proof_files": ["ProofsMarshal", "ProofsWf", "ProofsHeap", "ProofsSlice"],
     "harness_timeout": {"quick": 600, "thorough": 3000},
-    "rule": "corpus first (the probe schedules of the four repaired defects: node-list aliasing through Clone for a published value and for a pending snapshot, Term/Index restamp of a pending "
+    "rule": "corpus first (the probe schedules of the five repaired defects: node-list aliasing through Clone for a published value and for a pending snapshot, Subscriptions array shared by "
+            "RetentionPolicyInfo.clone (drop of a non-last subscription; append after a shrink), Term/Index restamp of a pending "
             "snapshot by a rejected command, group truncated at the Unix epoch, every rejected envelope shape; the open finding: shard group starting before the int64 nanosecond range), then "
             "designed raw envelopes (every command type x {valid, no extension, wrong extension, own+other extension, empty body, body cut, body garbage, extension as varint, truncated, "
             "extension before type, type twice} + unknown/negative type numbers + garbage), then seeded generation: 60% schedules of 8..48 commands (thorough: every 10th 100..220) of all 28 "
-            "modelled kinds from C06's generator, with Snapshot()/store.snapshot() taken at random points (biased to just before node-list mutations), persisted after further commands, restored "
+            "modelled kinds from C06's generator, with Snapshot()/store.snapshot() taken at random points (biased to just before node-list and subscription/user/policy-list mutations; policies with several subscriptions), persisted after further commands, restored "
             "into a fresh store, suffix replayed; 40% mutated envelopes (bit flips, cuts, random bodies, random type/extension pairs). distinct = distinct schedule / byte string; "
             "non-trivial = a handle persisted after at least one later state-changing command in a log with a shard group (snap), envelope that unmarshals (raw)",
     "trusted_base": [
@@ -40,7 +41,8 @@ CONFIG = {
         "C07: the harness drives storeFSM.Snapshot/Persist/Restore, store.snapshot(), validateCommand through services/meta/verif_export_c07.go (in-memory raft.SnapshotSink); Persist is called from the "
         "same goroutine (the interleaving with Apply is sequential: data races during a concurrent Persist are outside the model)",
         "C07: dumps as in C06 (groups by ID, privileges by database, exact unix nanoseconds) plus the (group ID, DeletedAt) pairs; Go's append growth only matters for the unrepaired shallow Clone",
-        "C07: command/extension tables, 'Clone copies node lists', 'Snapshot clones', 'validateCommand checks extension' are re-read from the source by genconsts each run",
+        "C07: command/extension tables, 'Clone copies node lists', 'every slice/map field of every struct reachable from Data is assigned in its clone method', 'Snapshot clones', "
+        "'validateCommand checks extension' are re-read from the source by genconsts each run; the heap machine keeps everything but the two node lists by value on the strength of that fact and of the differential run",
     ],
     "modelled": "services/meta/data.go marshal/unmarshal of Data and every nested type, Clone; store_fsm.go Snapshot/Persist/Restore and the head of Apply (unmarshal, type switch, GetExtension + "
                 "type assertion); handler.go validateCommand; store.snapshot(). NOT modelled: raft_state.go, client.go long polling/retry, service.go, the HTTP layer, hashicorp/raft, boltdb",
